@@ -26,10 +26,20 @@ import (
 )
 
 const (
-	repoDir    = "/repo"
 	verifDir   = "/verif"
 	modulePath = "github.com/MinterTeam/minter-go-node"
 )
+
+// repoDir is the tree under verification.  Registered commands always use
+// /repo; VERIF_REPO exists for tools/eval_seeds.sh, which evaluates seeded
+// mutations on a scratch worktree so that /repo itself is never modified
+// (evidence then goes to VERIF_EVIDENCE_DIR, not to /verif/evidence).
+var repoDir = func() string {
+	if d := os.Getenv("VERIF_REPO"); d != "" {
+		return d
+	}
+	return "/repo"
+}()
 
 var goEnv = []string{"GOFLAGS=-mod=mod", "GOPROXY=off", "GOSUMDB=off", "GOTOOLCHAIN=local", "GONOSUMCHECK=1", "GONOSUMDB=*"}
 
